@@ -72,12 +72,20 @@ struct Net {
 
 static NET: Mutex<Option<Net>> = Mutex::new(None);
 
+/// Instances that crashed (injected) while they served a request.
+static CRASHED: Mutex<Vec<usize>> = Mutex::new(Vec::new());
+
+pub fn take_crashed() -> Vec<usize> {
+    std::mem::take(&mut *CRASHED.lock().unwrap_or_else(|e| e.into_inner()))
+}
+
 fn lock() -> std::sync::MutexGuard<'static, Option<Net>> {
     NET.lock().unwrap_or_else(|e| e.into_inner())
 }
 
 /// Creates the network for a run and installs the transport handler.
 pub fn install(rng: Rng, cfg: NetCfg) {
+    take_crashed();
     *lock() = Some(Net {
         hosts: BTreeMap::new(), rng, cfg, seen: BTreeMap::new(), quiet: false,
         cut: false,
@@ -213,6 +221,12 @@ fn deliver(uri: &str, body: &[u8]) -> Result<Bytes, String> {
         return Err(format!("connection refused by {host}"))
     };
     let call = |bytes: &[u8]| -> Result<Bytes, String> {
+        // An instance that died while serving an earlier copy of this
+        // message is not there for a later one.
+        if CRASHED.lock().unwrap_or_else(|e| e.into_inner()).contains(&idx) {
+            hooks::state().fire("net.down");
+            return Err(format!("connection refused by {host}"))
+        }
         // Act as the target instance for the duration of the call.
         let caller = hooks::current_instance();
         let caller_started = hooks::state().sched_started;
@@ -220,7 +234,7 @@ fn deliver(uri: &str, body: &[u8]) -> Result<Bytes, String> {
         seams::set_thread_skew_secs(skew);
         hooks::state().sched_started = Some(started_at);
         let rt = mgr.verif_runtime();
-        let res = match proto {
+        let res = std::panic::catch_unwind(std::panic::AssertUnwindSafe(|| match proto {
             "rfc6492" => rt.ca_manager().rfc6492(
                 &handle(name), Bytes::copy_from_slice(bytes), None, &ADMIN, rt
             ).map_err(|e| format!("HTTP error from {host}: {e}")),
@@ -231,6 +245,30 @@ fn deliver(uri: &str, body: &[u8]) -> Result<Bytes, String> {
                 Err(_) => Err(format!("HTTP 404 from {host}")),
             },
             _ => Err(format!("HTTP 404 from {host}")),
+        }));
+        let res = match res {
+            Ok(res) => res,
+            Err(payload) => {
+                // An injected crash of the serving instance: the client
+                // sees the connection break; the harness starts the
+                // instance again after the client's task.
+                let injected = payload.is::<hooks::CrashPayload>()
+                    || (payload.is::<hooks::FatalPayload>()
+                        && hooks::state().fault.fired_at.is_some());
+                if injected && caller != idx {
+                    CRASHED.lock().unwrap_or_else(|e| e.into_inner())
+                        .push(idx);
+                    unregister(host);
+                    hooks::state().fire("net.server_crashed");
+                    Err(format!("connection to {host} broke"))
+                }
+                else {
+                    hooks::set_current_instance(caller);
+                    restore_caller_skew(caller);
+                    hooks::state().sched_started = caller_started;
+                    std::panic::resume_unwind(payload)
+                }
+            }
         };
         hooks::set_current_instance(caller);
         restore_caller_skew(caller);
